@@ -3,7 +3,7 @@ import json, sys, os
 name, props, what, needs = sys.argv[1:5]
 strengthened = sys.argv[5] if len(sys.argv) > 5 else ""
 d = f"/verif/seeded/{name}"
-m = {"properties": props.split(","), "what": what, "needs": needs, "from_agents": ["batch 5"],
+m = {"properties": props.split(","), "what": what, "needs": needs, "from_agents": [os.environ.get("SEED_BATCH", "batch 9")],
      "checks": " | ".join(l.strip() for l in open(f"{d}/checks.txt") if l.strip()),
      "validation": open(f"{d}/validation.txt").read().strip(),
      "ran": "tools/seedcheck.sh (existing suite with the change; demo with / without the change in the scratch worktree; then git -C /repo apply patch.diff; ./check <ids> quick; git -C /repo checkout -- .)"}
